@@ -1,3 +1,5 @@
+//go:build !no_c09
+
 package props
 
 import (
